@@ -1064,6 +1064,30 @@ class Interp:
         finally:
             fr.ctx.pop()
 
+    def ex_AsyncFor(self, st, fr):
+        """`async for` over an asynchronous iterable whose (assumed) contract is a finite materialised sequence: the
+        stub of the producer (e.g. iterate_maybe_async) returns a list / tuple and the loop runs over it like `for`
+        (the same treatment as asynchronous comprehensions, see _comp); anything else is outside the fragment"""
+        it = yield from self.ev(st.iter, fr)
+        if not isinstance(it, (list, tuple)):
+            raise EngineError(f"async for over {it!r} at line {st.lineno}: the asynchronous iterable must be given by a stub returning a list")
+        items = list(it)
+        pos = _ListIter(items)
+        fr.ctx.append(("for", st.lineno, pos))
+        try:
+            for x in items:
+                pos.i += 1
+                yield from self.assign(st.target, x, fr)
+                try:
+                    yield from self.ex_block(st.body, fr)
+                except BreakSig:
+                    return
+                except ContinueSig:
+                    pass
+            yield from self.ex_block(st.orelse, fr)
+        finally:
+            fr.ctx.pop()
+
     def ex_Break(self, st, fr):
         raise BreakSig()
         yield
